@@ -35,6 +35,8 @@ VARIABLES
     \* @type: Str;
     last
 
+vars == << len, off, items, errd, last >>
+
 ConstFaithful == Skewed = FALSE
 ConstSkewed == Skewed = TRUE
 
@@ -76,6 +78,8 @@ IndInv ==
     /\ len >= 0 /\ items >= 0
     /\ InRange
     /\ last \in {"-", "ok", "err", "none"}
+    /\ errd \in BOOLEAN
+    /\ len \in Int /\ off \in Int /\ items \in Int
     /\ (~errd => 3 * items <= off)
     /\ (errd => off = len /\ items >= 1 /\ 3 * (items - 1) < len)
 
